@@ -403,6 +403,7 @@ def run(ctx):
                 s.starts = []
                 s.advs = []
                 s.wraps = []
+                s.covers = []
 
             def on_edge(s, c2, node, label, refined, ts):
                 if c2.fn is not s.fn:
@@ -421,6 +422,8 @@ def run(ctx):
                         tot = cur + add
                         if not covered_by(Lin(tot.t, 0), facts):
                             s.wraps.append((c2.node, tot))
+                        else:
+                            s.covers.append(([f_ for f_ in facts if covered_by(Lin(tot.t, 0), [f_])], tot, c2.node))
                 return SymRule.on_assign(s, c2, lhs, rhs, op, value, ts)
 
             def sym_assign(s, c2, lhs, rhs, op, ts):
@@ -449,6 +452,65 @@ def run(ctx):
               'the sum is representable: sizes that add up to 2^64 or more wrap, and chunks are reported (and read) at '
               'offsets that are not the sum of the stored sizes' % (o.wraps[0][1],), ir.file,
               o.wraps[0][0].line if o.wraps else ir.line, config=config)
+        # the sum that is proven representable is a *file* offset: it includes the size of the header, measured by a
+        # context field that the read path has already set when the index is parsed (fields set later - data_offset is
+        # assigned after the index - still hold 0 here, and the test would be weaker by the size of the header)
+        from ..ir import walk as _walk
+        from ..program import all_exprs as _ae, is_assign_op as _ia
+        zrh = prog.need_func('zck_read_header')
+        before = []
+        for ex in _ae(zrh):
+            for c_ in calls_in(ex):
+                before.append(c_)
+        names_in_order = [callee_name(c_) for c_ in sorted(before, key=lambda c_: c_.line)]
+        cut = None
+        for i_, nm_ in enumerate(names_in_order):
+            tf = [f_ for f_ in prog.lib_funcs() if f_.name == nm_]
+            if tf:
+                seen_, _ = prog.reachable_calls(tf)
+                if any(prog.funcs[q].name == ir.name for q in seen_):
+                    cut = i_
+                    break
+        ck.require(cut is not None, 'zck_read_header no longer reaches index_read')
+        early = [prog.need_func('read_lead')]
+        for nm_ in names_in_order[:cut]:
+            early += [f_ for f_ in prog.lib_funcs() if f_.name == nm_]
+        seen_e, _ = prog.reachable_calls(early)
+        set_before = {}
+        for q in seen_e:
+            f_ = prog.funcs[q]
+            for ex in _ae(f_):
+                for n_ in _walk(ex):
+                    if n_.k == 'bin' and _ia(n_.op):
+                        l_ = strip(n_.a[0])
+                        if l_ is not None and l_.k == 'mem':
+                            set_before.setdefault(l_.op, []).append(n_.a[1])
+        hdr_fields = set()
+        for fld, rhss in set_before.items():
+            for r_ in rhss:
+                nm_set = set(x.op for x in _walk(r_) if x.k == 'mem')
+                if 'lead_size' in nm_set and 'header_length' in nm_set:
+                    hdr_fields.add(fld)
+        for facts_, tot_, nd_ in o.covers[:1]:
+            best = None
+            for f_ in facts_:
+                extra_terms = [k for k in f_.t if k not in tot_.t]
+                flds = [k.replace('.', '->').split('->')[-1] for k in extra_terms if '->' in k or '.' in k]
+                unset = [x for x in flds if x not in set_before]
+                has_hdr = any(x in hdr_fields for x in flds)
+                cand = (not unset and has_hdr, f_, flds, unset)
+                if best is None or cand[0]:
+                    best = cand
+            okb, f_, flds, unset = best
+            ck.ob('C13-e', 'R4.offsets', ir.name, 'sum-includes-header', okb,
+                  'the sum proven representable (%r) includes the header size through %s, which the read path sets before '
+                  'the index is parsed' % (f_, ', '.join(flds)) if okb else
+                  ('the representability test of the running sum measures from %s, which is not assigned on the read path '
+                   'before index_read() runs (it still holds 0 there): offsets within the size of the header below the '
+                   'limit are accepted and reported as file offsets that do not fit' % ', '.join(unset)) if unset else
+                  'the sum proven representable (%r) does not include the size of the header (a field set from lead_size + '
+                  'header_length): the file offset of the last chunk can exceed the largest representable offset' % (f_,),
+                  ir.file, nd_.line, config=config)
         from ..rules import extra as _x
         _x.check_reader_data_offset(ck, prog, config, 'C13-e')
         # ---- f
